@@ -3,7 +3,7 @@
    Model: Model/Op.v `Block i b td l` (kind BRow/BDiag/BCol, tree shape td of the container, blocks l
    in pytree-leaf order), Model/Algebra.v (mk_block, structs, transpose, the block rules),
    Model/Denote.v (denote), Model/BlockMat.v (containers, tree maps, matrices, binv). *)
-From Coq Require Import List Ring ZArith.
+From Coq Require Import List Ring ZArith String.
 From Furax Require Import Base.Pytree Model.Op Model.Algebra Model.Denote Model.Wf Model.BlockMat
   Lemmas.DenoteL Lemmas.Sound Lemmas.BlocksL.
 Import ListNotations.
@@ -124,6 +124,17 @@ Section C10.
     (b = BRow /\ out_struct x <> out_struct y) \/ (b = BCol /\ in_struct x <> in_struct y) ->
     mk_block b td l = Err ValueError.
   Proof. exact (BlocksL.ctor_rejects_mismatch K). Qed.
+  (* the shared structures are compared as WHOLE pytrees - treedef (container kinds, dict keys, nesting) AND leaves:
+     blocks whose shared structures differ in the container alone are refused, equal leaves notwithstanding *)
+  Theorem ctor_rejects_other_container : forall b td (l : list (op K)) x y,
+    List.length l = nleaves td -> In x l -> In y l ->
+    (b = BRow /\ shape_of (out_struct x) <> shape_of (out_struct y)) \/
+    (b = BCol /\ shape_of (in_struct x) <> shape_of (in_struct y)) ->
+    mk_block b td l = Err ValueError.
+  Proof. exact (BlocksL.ctor_rejects_other_container K). Qed.
+  Theorem struct_eq_iff_treedef_leaves : forall s t : struct,
+    s = t <-> shape_of s = shape_of t /\ flatten s = flatten t.
+  Proof. exact (BlocksL.struct_eq_iff_treedef_leaves). Qed.
   Theorem ctor_error_kinds : forall b td (l : list (op K)),
     (exists e, mk_block b td l = Ok e) \/ mk_block b td l = Err ValueError \/ mk_block b td l = Err IndexError.
   Proof. exact (ctor_never_other K). Qed.
@@ -212,6 +223,8 @@ Print Assumptions block_transpose_adjoint.
 Print Assumptions ctor_ok_iff.
 Print Assumptions ctor_accepts_match.
 Print Assumptions ctor_rejects_mismatch.
+Print Assumptions ctor_rejects_other_container.
+Print Assumptions struct_eq_iff_treedef_leaves.
 Print Assumptions ctor_error_kinds.
 Print Assumptions ctor_result_wf.
 Print Assumptions block_transposes.
@@ -238,6 +251,26 @@ Example c10_example :
     = Ok (Some [AddOp fresh [Homoth fresh 4%Z s2; i2]]) /\
   forallb (@is_square Z) [h; i3] = true /\
   denote Z.add Z.mul (fun _ _ => None) (Block 6%N BRow (Leaf tt) [h]) (Leaf [1; 2]%Z) = Some (Leaf [2; 4]%Z).
+Proof. vm_compute. repeat split. Qed.
+
+(* structures with the SAME leaves in another container are different shared structures: tuple / list / dict,
+   dict keys, nesting, leaf against singleton tuple, Stokes class against tuple; the same structure is accepted *)
+Example c10_container_mismatch_example :
+  let s := Leaf (mkSds [2] 0) in
+  let variants : list struct :=
+    [ Node KTuple [s; s]; Node KList [s; s]; Node (KDict ["a"; "b"]%string) [s; s]; Node (KDict ["a"; "c"]%string) [s; s];
+      Node (KStokes 2) [s; s]; Node KTuple [Node KTuple [s; s]]; Node KTuple [Node KTuple [s]; Node KTuple [s]] ] in
+  let td := Node KList [Leaf tt; Leaf tt] in
+  let col (a b : struct) := mk_block BCol td [Ident 1%N a; Homoth 2%N 2%Z b : op Z] in
+  let row (a b : struct) := mk_block BRow td [Ident 1%N a; Homoth 2%N 2%Z b : op Z] in
+  let refused r := match r with Err ValueError => true | _ => false end in
+  let accepted r := match r with Ok _ => true | _ => false end in
+  forallb (fun a => forallb (fun b => (Bool.eqb (accepted (col a b)) (struct_eqb a b) && Bool.eqb (refused (col a b)) (negb (struct_eqb a b))
+                                   && Bool.eqb (accepted (row a b)) (struct_eqb a b) && Bool.eqb (refused (row a b)) (negb (struct_eqb a b)))%bool)
+                           variants) variants = true /\
+  forallb (fun a => forallb (fun b => struct_eqb (Node KList (map Leaf (flatten a))) (Node KList (map Leaf (flatten b)))) variants) variants = true /\
+  refused (col s (Node KTuple [s])) = true /\ refused (row (Node KTuple [s]) s) = true /\
+  refused (col (Node KTuple [Node KTuple [s; s]; s]) (Node KTuple [s; Node KTuple [s; s]])) = true.
 Proof. vm_compute. repeat split. Qed.
 
 Example c10_acts_as_witness :
